@@ -4,10 +4,11 @@ from props import _worldprop as WP
 import worldhist as WH
 import worldgen as W
 ID = "C13"
-LEAN_TARGETS = ["Rsp.Props.C13"]
+LEAN_TARGETS = ["Rsp.Props.C13", "Rsp.Props.C12Merge"]
 THEOREMS = ["Rsp.Props.C13.decttl_length", "Rsp.Props.C13.decttl_zero", "Rsp.Props.C13.decttl_pos",
             "Rsp.Props.C13.decttl_meets_spec", "Rsp.Props.C13.checkttl_plain", "Rsp.Props.C13.checkttl_plain_first",
-            "Rsp.Props.C13.addttl_plain", "Rsp.Props.C13.effAddTtl_table", "Rsp.Props.C13.loopPrevents_iff"]
+            "Rsp.Props.C13.addttl_plain", "Rsp.Props.C13.effAddTtl_table", "Rsp.Props.C13.loopPrevents_iff",
+            "Rsp.Props.C12.inherited_on_iff"]
 RULE = ("world: histories with TTL attributes of the configured type (plain or vendor) at 0,1,2,3,256,.. and odd lengths on requests and replies, AddTTL per peer/global, "
         "client and server blocks sharing a name under LoopPrevention on/off/unset; non-trivial = something was forwarded or delivered. decttl: every value of length 0..2 enumerated (thorough: plus 786432 three-octet values), longer ones sampled around borrow chains; "
         "a case is non-trivial when the value is non-empty and distinct by content")
